@@ -109,10 +109,10 @@ class ImageWriter:
 
         filters = image.stream.get_filters()
 
-        if filters[-1][0] in LITERALS_DCT_DECODE:
+        if filters and filters[-1][0] in LITERALS_DCT_DECODE:
             name = self._save_jpeg(image)
 
-        elif filters[-1][0] in LITERALS_JPX_DECODE:
+        elif filters and filters[-1][0] in LITERALS_JPX_DECODE:
             name = self._save_jpeg2000(image)
 
         elif self._is_jbig2_iamge(image):
@@ -281,11 +281,14 @@ class ImageWriter:
         return False
 
     def _create_unique_image_name(self, image: LTImage, ext: str) -> Tuple[str, str]:
-        name = image.name + ext
+        # image names come from the document: keep only a plain file name so
+        # that nothing is written outside the output directory
+        image_name = os.path.basename(image.name.replace("\0", "")) or "image"
+        name = image_name + ext
         path = os.path.join(self.outdir, name)
         img_index = 0
         while os.path.exists(path):
-            name = "%s.%d%s" % (image.name, img_index, ext)
+            name = "%s.%d%s" % (image_name, img_index, ext)
             path = os.path.join(self.outdir, name)
             img_index += 1
         return name, path
